@@ -102,7 +102,7 @@ func oracle(r *scen.Runner, sp *scen.Sprint) *harn.Failure {
 }
 
 var opts = scen.GenOpts{
-	World:        world.Opts{MaxFlows: 3, MaxNodes: 5, Voice: true, Languages: []string{"fra"}},
+	World:        world.Opts{MaxFlows: 3, MaxNodes: 5, Voice: true, Languages: []string{"fra"}, SubflowHeavy: true},
 	WrongResumes: true,
 	Restarts:     true,
 	LowLimits:    false,
@@ -113,6 +113,13 @@ var opts = scen.GenOpts{
 func drawFault(t *rapid.T, r *scen.Runner) *scen.Fault {
 	if r.Session == nil || r.Session.Status() != flows.SessionStatusWaiting || rapid.IntRange(0, 3).Draw(t, "fault") > 0 {
 		return nil
+	}
+	// when the waiting run has a parent, half of the faults hit the parent (its flow, its node, its router): those are the
+	// histories in which the resume itself is accepted and the trouble only shows when control returns to the parent
+	for _, run := range r.Session.Runs() {
+		if run.Status() == flows.RunStatusWaiting && run.ParentInSession() != nil && rapid.Bool().Draw(t, "parentfault") {
+			return &scen.Fault{Kind: rapid.SampledFrom([]string{"delete_parent_flow", "delete_parent_flow", "delete_parent_node", "strip_parent_router"}).Draw(t, "parentfaultkind")}
+		}
 	}
 	return &scen.Fault{Kind: rapid.SampledFrom(scen.FaultKinds).Draw(t, "faultkind")}
 }
